@@ -21,7 +21,7 @@ import itertools
 import os
 import random
 
-from ..core import PropCheck, Case, sx, enc
+from ..core import PropCheck, Case, sx, enc, parse_sx
 from . import c06
 
 WRAPPER = 'xxxblank'
@@ -702,6 +702,21 @@ class Check(PropCheck):
     def compare(self, model_out, impl_out, data):
         if model_out == impl_out:
             return None
+        # getElementsWithAttrValues: the property asks for the same set, not the same order (an answer taken from an
+        # attribute index is grouped by value) — compare those answers as sets
+        try:
+            m, i = parse_sx(model_out), parse_sx(impl_out)
+            if not COMPARE_MAPS and len(m) == len(i) == len(data['steps']):
+                for k, st in enumerate(data['steps']):
+                    if st[0] == 'query' and st[2][0] == 'vals':
+                        for side in (m, i):
+                            a = side[k]
+                            if isinstance(a, list) and len(a) == 3 and isinstance(a[1], list) and a[1][:1] == ['ok']:
+                                a[1] = ['ok'] + sorted(a[1][1:], key=int)
+                if m == i:
+                    return None
+        except Exception:
+            pass
         return 'model=%s impl=%s' % (_first_diff(model_out, impl_out), '')
 
     # ---- the property itself on the library ---------------------------------------------------
